@@ -29,7 +29,7 @@ def ENUM_LOOPS(header):
 
 UNIT = Unit(
     name="U-FNBODY",
-    properties=["C03"],
+    properties=["C03", "C17"],
     rules=["attrs", "fmtmsg", ("strip", "tast::"), ("strip", "hir::"), "iter_map_collect", "for_index"],
     describe="typer::toplevel::typecheck_fn, from the parameter types on (fragment): the body of a function is checked against its DECLARED result type (unit when none is written) "
              "in an environment in which every parameter is bound to its DECLARED type, and the constraints are solved afterwards — the signature the callers were checked "
@@ -121,5 +121,19 @@ UNIT = Unit(
            obligation="the recorded enum definition has the written name, type parameters and, variant by variant in order, the written variant name and the types its payload annotations denote",
            contract="ensures enum_declared(*enum_def, final(env).enum_def(enum_def.name.text())),",
            loop_fn=lambda k, header, kw, body="": ENUM_LOOPS(header)),
+        Fn(file=TL, name="define_trait", attrs="#[verifier::loop_isolation(false)]", rules=["attrs", "fmtmsg", ("strip", "tast::"), ("strip", "hir::"), "iter_map_collect", "for_index"],
+           pre_rewrites=[("trait_def: &hir::TraitDef", "trait_def: &HirTraitDef", 1), ("let mut methods = IndexMap::new();", "let mut methods: MethodMap<FnScheme> = MethodMap::new();", 1),
+                         (re.compile(r"for hir::TraitMethodSignature \{\s*name: method_name,\s*params,\s*ret_ty,\s*\} in trait_def\.method_sigs\.iter\(\)\s*\{"),
+                          "for __sig in trait_def.method_sigs.iter() { let method_name = &__sig.name; let params = &__sig.params; let ret_ty = &__sig.ret_ty;", 1),
+                         (re.compile(r"tast::Ty::from_hir\(env, (\w+), &\[\]\)"), r"ty_from_hir(env, \1, &no_tparams())", "*"), (".collect::<Vec<_>>();", ".collect();", "*"),
+                         ("type_params: vec![],", "type_params: Vec::new(),", "*"),
+                         (re.compile(r"env\.current_mut\(\)\s*\.trait_env\s*\.trait_defs\s*\.insert\(trait_def\.name\.to_ident_name\(\), env::TraitDef \{ methods \}\);"), "insert_trait(env, trait_def.name.to_ident_name(), TraitDefRec { methods });", 1)],
+           rewrites=[(re.compile(r"let mut (__mo\d+) = Vec::new\(\);"), r"let mut \1: Vec<Ty> = Vec::new();", "*")],
+           obligation="the recorded trait holds, for every declared method, the function type (declared parameter types, in order) -> (declared result type)",
+           contract="ensures trait_declared(*trait_def, final(env).trait_def(trait_def.name.text())),",
+           loop_fn=lambda k, header, kw: (
+               (lambda mt: f"invariant __mi{mt.group(1)} <= params.len(), __mo{mt.group(1)}@.len() == __mi{mt.group(1)},\n  forall|j: int| 0 <= j < __mi{mt.group(1)} ==> #[trigger] __mo{mt.group(1)}@[j] == hir_ty(params@[j]),\n decreases params.len() - __mi{mt.group(1)},")(re.search(r"__mi(\d+)", header))
+               if "__mi" in header else
+               (lambda mt: f"invariant {mt.group(1)} <= trait_def.method_sigs.len(), methods_upto(trait_def.method_sigs@, {mt.group(1)} as int, methods@),\n decreases trait_def.method_sigs.len() - {mt.group(1)},")(re.search(r"while\s+(__fk\d+)", header)))),
     ],
 )
